@@ -363,4 +363,91 @@ example : (outputsOf 1 (run rstep sLoadFixed loadAB).2).map ROut.idsD = [[0, 0, 
 
 end Defect
 
+/-! ## copies of a constraint set
+
+`ConstraintSet::Copy()` is a shallow copy: the copies share their `Constraint` objects through
+`shared_ptr`.  In the abstract machine the shared objects are therefore part of the *globals*, the
+private part of a set (cache, bound flag, the model it is bound to) is the instance.  As shipped,
+`Bind` and the evaluation routines only read what the user stored in the shared objects (body id,
+point): the read-only frame condition, hence independence.  A `Bind` that stores something computed
+from *its* model in the shared object (a cached, model-dependent contact point) breaks it: two
+schedules with the same per-instance calls return different results.  The implementation side of this
+is the copy probe of the check (DESIGN §C20). -/
+
+section Copies
+
+/-- what the shared contact-constraint object holds: the point as given by the user, and a slot for
+    a bind-time cache -/
+structure SharedC where
+  point : Int
+  cache : Int
+  deriving DecidableEq, Repr
+
+/-- the private part of one constraint set: the model it is bound to, summarised by the placement of
+    the fixed body that carries the contact point -/
+structure SetInst where
+  offset : Int
+  bound : Bool
+  deriving DecidableEq, Repr
+
+inductive COp where
+  | bind | eval
+  deriving DecidableEq, Repr
+
+/-- as shipped: `Bind` writes the instance only, evaluation resolves the point against the
+    instance's own model on every call -/
+def cstep : COp → SetInst → SharedC → SetInst × SharedC × Int
+  | .bind, x, g => ({ x with bound := true }, g, 0)
+  | .eval, x, g => (x, g, g.point + x.offset)
+
+/-- `Bind` caches the resolved point in the shared object, evaluation reads the cache -/
+def cstepCached : COp → SetInst → SharedC → SetInst × SharedC × Int
+  | .bind, x, g => ({ x with bound := true }, { g with cache := g.point + x.offset }, 0)
+  | .eval, x, g => (x, g, g.cache)
+
+theorem cstep_preserved : GlobPreserved cstep := by
+  intro op x g; cases op <;> rfl
+
+/-- any number of copies, any interleaving of binds and evaluations: every copy returns what it
+    returns alone -/
+theorem copies_isolated (s : Sys SetInst SharedC) (sched : List (Nat × COp)) (i : Nat) :
+    (run cstep s sched).1.inst i = (solo cstep s i sched).1 ∧
+    outputsOf i (run cstep s sched).2 = (solo cstep s i sched).2.2 :=
+  interleaving_independent_readonly cstep_preserved s sched i
+
+def sCopies : Sys SetInst SharedC :=
+  ⟨fun i => if i = 0 then ⟨0, false⟩ else ⟨5, false⟩, ⟨2, 0⟩⟩
+
+/-- set 0 binds and evaluates; the copy (set 1, bound to a model with the fixed body elsewhere)
+    binds before / after the evaluation of set 0 -/
+def copyEarly : List (Nat × COp) := [(0, .bind), (1, .bind), (0, .eval)]
+def copyLate : List (Nat × COp) := [(0, .bind), (0, .eval), (1, .bind)]
+
+theorem copy_project : ∀ i, project i copyEarly = project i copyLate := by
+  intro i
+  by_cases h0 : i = 0
+  · subst h0; decide
+  · by_cases h1 : i = 1
+    · subst h1; decide
+    · have a : (0 == i) = false := by simp; omega
+      have b : (1 == i) = false := by simp; omega
+      simp [project, copyEarly, copyLate, List.filter, a, b]
+
+/-- the cached variant is neither read-only nor independent of the shared object ... -/
+theorem cstepCached_not_preserved : ¬ GlobPreserved cstepCached := by
+  intro h; exact absurd (h .bind ⟨5, false⟩ ⟨2, 0⟩) (by decide)
+
+/-- ... and the property fails for it: same calls per set, different result for set 0 -/
+theorem copy_cache_counterexample :
+    (∀ i, project i copyEarly = project i copyLate) ∧
+    outputsOf 0 (run cstepCached sCopies copyEarly).2 ≠
+      outputsOf 0 (run cstepCached sCopies copyLate).2 :=
+  ⟨copy_project, by decide⟩
+
+/-- the shipped step function returns `2` for set 0 in both schedules -/
+example : outputsOf 0 (run cstep sCopies copyEarly).2 = [0, 2] ∧
+    outputsOf 0 (run cstep sCopies copyLate).2 = [0, 2] := ⟨by decide, by decide⟩
+
+end Copies
+
 end Rbdl.C20
